@@ -162,7 +162,9 @@ def create_database(
     file_hash_path = _get_file_hash_path(cmd.zettel_dir)
     file_to_hash = _get_file_hash_map(cmd.zettel_dir)
     _write_file_hash_to_disk(file_hash_path, file_to_hash)
-    error_file_whitelist.write_text("\n".join(sorted(error_files)))
+    c.write_text_atomically(
+        error_file_whitelist, "\n".join(sorted(error_files))
+    )
     session.commit()
 
 
@@ -266,7 +268,9 @@ def reindex_database(
     # do, so the index is committed before it is written.
     session.commit()
     _write_file_hash_to_disk(file_hash_path, file_to_hash)
-    error_file_whitelist.write_text("\n".join(sorted(error_files)))
+    c.write_text_atomically(
+        error_file_whitelist, "\n".join(sorted(error_files))
+    )
 
 
 def reindex_database_after_edit(
@@ -348,8 +352,10 @@ def _write_file_hash_to_disk(
     file_hash_path: Path, file_to_hash: dict[str, str]
 ) -> None:
     _LOGGER.debug("Writing hash map to disk", file=str(file_hash_path))
-    with file_hash_path.open("w") as f:
-        json.dump(dict(sorted(file_to_hash.items())), f, indent=4)
+    c.write_text_atomically(
+        file_hash_path,
+        json.dumps(dict(sorted(file_to_hash.items())), indent=4),
+    )
 
 
 def _add_zid_to_line(zid: str, line: str) -> str:
@@ -480,7 +486,7 @@ def _update_zo_file(
         zorg_page=str(zo_path),
         notes_to_update=len(notes_to_update),
     )
-    zo_path.write_text("\n".join(zlines))
+    c.write_text_atomically(zo_path, "\n".join(zlines))
 
     # Only this file was rewritten, so only its hash is refreshed. Refreshing
     # the hash of every file would hide edits that have NOT been indexed yet.
